@@ -115,12 +115,22 @@ def make_replay(shape, repeat, mode, chunk):
                 ref = 0.0
                 for combo in itertools.product(*[range(g.size) for g in doms]):
                     ref += math.prod(g.weights[k] for g, k in zip(doms, combo)) * f(doms[-1].points[combo[-1]])
+            elif mode == "hist":
+                # one object, used repeatedly: enumerate weights and points, integrate point by point twice, then vectorised
+                n1, n2 = len(list(mg.weights)), len(list(mg.weights))
+                a1 = mg.integrate(f, non_vectorized=True, integration_chunk_size=chunk)
+                a2 = mg.integrate(f, non_vectorized=True, integration_chunk_size=chunk)
+                a3 = mg.integrate(fvec) if len(doms) > 1 else a2
+                got = a2
+                if n1 != n2 or abs(a1 - ref) > 1e-9 * max(1, abs(ref)) or abs(a3 - ref) > 1e-9 * max(1, abs(ref)):
+                    got = float("nan")
+                    ref_info = dict(weights_enumerated=[n1, n2], first=float(a1), second=float(a2), vectorised_after=float(a3))
             else:
                 got = mg.integrate(f, non_vectorized=True, integration_chunk_size=chunk)
         except Exception as ex:
             return True, dict(shape=shape, repeat=repeat, mode=mode, chunk=chunk, raised=f"{type(ex).__name__}: {ex}")
         info = dict(shape=shape, repeat=repeat, mode=mode, chunk=chunk, got=float(got), nested_sum=float(ref), size=int(mg.size))
-        bad = abs(got - ref) > 1e-9 * max(1, abs(ref))
+        bad = not abs(got - ref) <= 1e-9 * max(1, abs(ref))
         n_expected = math.prod(g.size for g in doms)
         bad = bad or int(mg.size) != n_expected or len(list(mg.points)) != n_expected or len(list(mg.weights)) != n_expected
         return bad, info
@@ -212,6 +222,28 @@ def job(ctx: Ctx, shape, repeat):
             ctx.eq("integrate(vectorised, integrand returns one cached array) == nested product sum", p.result, want_h, p.pc, key=key + ":cached-integrand",
                    replay=make_replay(shape, repeat, "cached", 1))
     ctx.eq("separable integrand: nested sum == product of single-grid integrals", want_sep, prod_single, (), key=key + ":separable")
+    # history on ONE object: enumerations and integrations in sequence must each give the full answer again
+    RH = make_replay(shape, repeat, "hist", 2)
+
+    def history():
+        mg = build()
+        w1, w2 = list(mg.weights), list(mg.weights)
+        p1 = list(mg.points)
+        a1 = mg.integrate(F_scalar, non_vectorized=True, integration_chunk_size=2)
+        a2 = mg.integrate(F_scalar, non_vectorized=True, integration_chunk_size=total + 1)
+        a3 = mg.integrate(F_vector) if len(doms) > 1 else a2
+        a4 = mg.integrate(F_scalar, non_vectorized=True, integration_chunk_size=1)
+        return w1, w2, p1, list(mg.points), a1, a2, a3, a4
+    for p in run(history):
+        if p.exc is not None:
+            ctx.fail("history on one object:no-exception", f"{type(p.exc).__name__}: {p.exc}", key=key + ":history", replay=RH, model={})
+            continue
+        w1, w2, p1, p2, a1, a2, a3, a4 = p.result
+        ok_enum = len(w1) == total and len(w2) == total and len(p1) == total and len(p2) == total and all(node_of(a) is node_of(b) for a, b in zip(w1, w2))
+        (ctx.ok if ok_enum else ctx.fail)("weights and points can be enumerated repeatedly on one object (same full sequence each time)", detail=f"{len(w1)},{len(w2)},{len(p1)},{len(p2)}", key=key + ":history", replay=RH,
+                                          **({} if ok_enum else dict(model={})))
+        for label, a in (("first point-by-point", a1), ("second point-by-point", a2), ("vectorised after point-by-point", a3), ("point-by-point after vectorised", a4)):
+            ctx.eq(f"history on one object: {label} integration == nested product sum", a, want, p.pc, key=key + ":history", replay=RH)
 
 
 def configs(tier):
